@@ -61,6 +61,18 @@ CLAIMS = {
              "documented in Props/C10.lean.",
         tech="Lean 4 proof (generalised scan-state induction) + exhaustive-small differential correspondence",
         ref="DESIGN.md §7 C10"),
+    "C14": dict(
+        text="Lean theorem lex_conforms: for every list of well-formed spec-level tokens (LexSpec.lean, written from the TableGen "
+             "Programmer's Reference: identifiers incl. digit-leading, keywords, decimal/hex/binary integers in range, strings with "
+             "the five escapes, code fragments, variable names, bang operators, punctuation), each followed by a non-empty list of "
+             "well-formed separators (blank runs, line comments, nested block comments), the lexer model yields exactly those "
+             "tokens with those kinds and texts, no Error token, and the token texts tile the input; plus lex_reports_nothing, "
+             "lex_conforms_layout (exact boundaries), lex_conforms_eof, sign_at_eof. Tied to lexer.rs by exhaustive correspondence "
+             "over all strings <= 4 (quick) / <= 5 (thorough) of a 23-character focused alphabet and by an independent Python "
+             "reference on class-sampled token sequences.",
+        note="LexSpec.lean is a hand-written reading of the reference; four genuine lexer defects were repaired by fix: commits.",
+        tech="Lean 4 proof (maximal-munch lemma per token class, induction over token/separator lists) + exhaustive-small correspondence",
+        ref="DESIGN.md §7 C14"),
     "C15": dict(
         text="Lean theorem prep_selects: for every well-nested arrangement of #define/#ifdef/#ifndef/#else/#endif at any depth, "
              "the tokens the preprocessor model delivers to the parser are exactly those of the declarative reference evaluation "
